@@ -46,8 +46,33 @@ def impl_case(case):
                         all_ok = False
         except Exception:  # noqa
             all_ok = False
+        # the same definition built again on its own result, with the mutation space supplied by the
+        # caller (constructor argument mutation_space=): a compatible input must be left alone
+        space_changed = None
+        try:
+            np.random.seed(p["np_seed"] + 7)
+            p2 = dc.DnaOptimizationProblem(out, constraints=[specs.build_spec(tuple(d)) for d in p["constraints"]],
+                                           mutation_space=problem.mutation_space, logger=None)
+            if p2.sequence != out:
+                space_changed = p2.sequence
+        except Exception:  # noqa
+            pass
+        # ... and with a mutation space computed on ANOTHER design (a variant of the sequence): an input
+        # that satisfies every constraint of its own problem must still be left alone
+        if all_ok and space_changed is None:
+            try:
+                other = specs.other_sequence(inp)
+                q = dc.DnaOptimizationProblem(other, constraints=[specs.build_spec(tuple(d)) for d in p["constraints"]], logger=None)
+                np.random.seed(p["np_seed"] + 8)
+                p3 = dc.DnaOptimizationProblem(inp, constraints=[specs.build_spec(tuple(d)) for d in p["constraints"]],
+                                               mutation_space=q.mutation_space, logger=None)
+                if p3.sequence != inp:
+                    space_changed = p3.sequence
+                    out = inp
+            except Exception:  # noqa
+                pass
         return dict(kind=kind, changed=sum(x != y for x, y in zip(inp, out)), bad=bad, same_len=len(inp) == len(out),
-                    valid_input_changed=bool(all_ok and inp != out), inp=inp, out=out)
+                    valid_input_changed=bool(all_ok and inp != out), inp=inp, out=out, space_changed=space_changed)
     np.random.seed(p["np_seed"])
     try:
         if kind == "resolve":
@@ -107,6 +132,8 @@ def oracle(case, out):
             return "construction changed the sequence length"
         if o["bad"]:
             return "construction changed a position compatible with the hard restrictions"
+        if o.get("space_changed"):
+            return "a problem built with mutation_space= rewrote an input that lies in that space / satisfies all its own constraints (%s -> %s)" % (o["out"], o["space_changed"])
         if o.get("valid_input_changed"):
             return "construction edited an input that satisfies every constraint (%s -> %s)" % (o["inp"], o["out"])
         return None
